@@ -200,7 +200,13 @@ def _orchestrate(pid: str, tier: str, seed: int) -> int:
         print(f"KNOWN-FINDING: property={pid} {entry.get('what', entry.get('kind'))}")
     code = 0
     if new_violations or n_new:
-        for n, v in enumerate(new_violations):
+        per_kind: Counter = Counter()
+        shown = []
+        for v in new_violations:  # at most two witnesses per mechanism are written out; all are counted
+            per_kind[v["kind"]] += 1
+            if per_kind[v["kind"]] <= 2:
+                shown.append(v)
+        for n, v in enumerate(shown):
             path = os.path.join(core.REPLAY_DIR, f"{pid}-{tier}-s{seed}-{n}.json")
             with open(path, "w", encoding="utf-8") as f:
                 json.dump(v, f, indent=1, ensure_ascii=True)
